@@ -8,7 +8,10 @@ SIMPLE_IDENTS = ["Alpha", "BetaGamma", "RedGreenBlue", "Xy", "DeltaEcho", "Foxtr
                  # non-ASCII letters whose case mapping is one-to-one (no ß, no dotted/dotless i)
                  "ÉcranTitre", "ÜberGross", "ÑandúÁgil",
                  # digits: never a word boundary of their own; an upper-case letter after a digit starts a word
-                 "Http2", "Ipv6Only", "Sha256Sum"]
+                 "Http2", "Ipv6Only", "Sha256Sum",
+                 # underscores separate words and never survive a word-based style (empty pieces vanish);
+                 # lowercase / UPPERCASE only change letter case and keep them
+                 "_reserved", "raw__mode", "trailing_", "snake_case_name"]
 
 STYLES = ["camelCase", "PascalCase", "kebab-case", "snake_case", "SCREAMING_SNAKE_CASE", "SCREAMING-KEBAB-CASE",
           "lowercase", "UPPERCASE", "title_case", "mixed_case", "Train-Case"]
@@ -16,13 +19,16 @@ STYLES = ["camelCase", "PascalCase", "kebab-case", "snake_case", "SCREAMING_SNAK
 
 def words(ident):
     w = []
-    for ch in ident:
-        assert ch.isalpha() or (ch.isdigit() and w), ident
-        if ch.isupper() or not w:
-            w.append(ch)
-        else:
-            w[-1] += ch
-    assert "".join(w) == ident, ident
+    for piece in ident.split("_"):
+        cur = []
+        for ch in piece:
+            assert ch.isalpha() or (ch.isdigit() and cur), ident
+            if ch.isupper() or not cur:
+                cur.append(ch)
+            else:
+                cur[-1] += ch
+        w.extend(cur)
+    assert "".join(w) == ident.replace("_", ""), ident
     return w
 
 
